@@ -453,5 +453,27 @@ package types
 //@   ensures err == nil ==> forall i int :: 0 <= i && i < len(r.Validators) ==> r.Validators[i] != nil && r.Validators[i].VotingPower == vp.Validators[i].VotingPower && r.Validators[i].ProposerPriority == vp.Validators[i].ProposerPriority
 
 // Block hash accessors: they may fill the block's hash cache; nothing else that is modelled changes.
+//@ spec func blockHashOf(b *Block) common.Hash
 //@ trusted func (b *Block) Hash() (r common.Hash)
+//@   ensures r == blockHashOf(b)
 //@ trusted func (b *Block) HashesTo(hash common.Hash) (r bool)
+//@   ensures r ==> b != nil
+
+// Event publication hands out copies/read-only data: it does not write consensus state (trusted frame).
+//@ trusted func (b *EventBus) PublishEventPolka(event EventDataRoundState) (err error)
+//@ trusted func (b *EventBus) PublishEventUnlock(event EventDataRoundState) (err error)
+//@ trusted func (b *EventBus) PublishEventRelock(event EventDataRoundState) (err error)
+//@ trusted func (b *EventBus) PublishEventLock(event EventDataRoundState) (err error)
+//@ trusted func (b *EventBus) PublishEventVote(event EventDataVote) (err error)
+//@ trusted func (b *EventBus) PublishEventValidBlock(event EventDataRoundState) (err error)
+//@ trusted func (ps *PartSet) HasHeader(header PartSetHeader) (r bool)
+//@ trusted func (ps *PartSet) Header() (r PartSetHeader)
+
+//@ func (blockID *BlockID) IsZero() (r bool)
+//@   for C02 C03 C13
+//@   requires blockID != nil
+//@   ensures r <==> *blockID == BlockID{}
+
+//@ func NewPartSetFromHeader(header PartSetHeader) (r *PartSet)
+//@   for C13 C03
+//@   ensures fresh(r) && r.total == header.Total && r.hash == header.Hash && r.count == 0 && len(r.parts) == header.Total
